@@ -1107,6 +1107,15 @@ def case_strategy(draw, servertype, ser):
                 ok = False
             if not ok:
                 where = "attr"
+        if where == "arg":
+            # (only for classes that can be rebuilt with one more argument)
+            try:
+                probe = list(spec["args"]) + ["probe"]
+                ok = list(lookup_class(spec["ns"], spec["cls"])(*probe).args) == probe
+            except Exception:
+                ok = False
+            if not ok:
+                where = "attr"
         spec["special"] = {"unser": "surrogate", "where": where}
     case = {"level": "live", "servertype": servertype, "ser": ser, "kind": kind,
             "k": k if kind in ("batch-middle", "batch-last", "stream") else 0, "spec": spec}
